@@ -50,7 +50,7 @@ def lin(n, names=None):
     if n is None:
         return None
     cv = const_value(n)
-    if cv is not None and n.get("k") in ("int", "sizeof", "cast", "char", "enum", "bin", "un"):
+    if cv is not None and n.get("k") in ("int", "sizeof", "cast", "char", "enum", "bin", "un", "gvar", "member", "opcall", "cond"):
         return form(cv)
     k = n.get("k")
     if k == "var":
